@@ -253,4 +253,92 @@ def tracedReq (b : B) (v : P3) : Pt :=
   else ⟨some v.x, some v.y, some v.z⟩
 
 
+set_option linter.unusedSimpArgs false
+
+/-- the same machine state up to a per-axis error budget (known-ness must agree exactly) -/
+def Near (δ : Axis → Rat) (m m' : Machine) : Prop :=
+  m.rel = m'.rel ∧ ∀ a, match m.pos.get a, m'.pos.get a with
+    | some p, some p' => -(δ a) ≤ p' - p ∧ p' - p ≤ δ a
+    | none, none => True
+    | _, _ => False
+
+/-- every axis word replaced by its rounded value (what the formatter writes) -/
+def roundStmt (r : Rat → Rat) (s : Stmt) : Stmt := { s with ax := Pt.mk' fun a => (s.ax.get a).map r }
+
+/-- error budget after executing `s`: an absolute word resets the axis to ε, a relative word adds ε -/
+def budget (m : Machine) (s : Stmt) (ε : Rat) (δ : Axis → Rat) (a : Axis) : Rat :=
+  if s.codes.contains .G90 || s.codes.contains .G91 then δ a
+  else if isMotion s then (match s.ax.get a with | none => δ a | some _ => if m.rel then δ a + ε else ε)
+  else if s.codes.contains .G92 then (match s.ax.get a with | none => δ a | some _ => ε)
+  else δ a
+
+theorem roundStmt_isUnknown (r : Rat → Rat) (s : Stmt) : (roundStmt r s).ax.isUnknown = s.ax.isUnknown := by
+  cases hs : s.ax with | mk x y z => cases x <;> cases y <;> cases z <;> simp [roundStmt, Pt.isUnknown, Pt.mk', Pt.get, hs]
+
+theorem rounding_step (r : Rat → Rat) (ε : Rat) (hr : ∀ x, -ε ≤ r x - x ∧ r x - x ≤ ε)
+    (δ : Axis → Rat) (m m' : Machine) (h : Near δ m m') (s : Stmt) :
+    Near (budget m s ε δ) (m.exec s) (m'.exec (roundStmt r s)) := by
+  obtain ⟨hrel, hp⟩ := h
+  have hcodes : (roundStmt r s).codes = s.codes := rfl
+  have hmot : isMotion (roundStmt r s) = isMotion s := rfl
+  have hprobe : isProbe (roundStmt r s) = isProbe s := rfl
+  unfold Machine.exec budget
+  rw [hcodes, hmot, hprobe]
+  by_cases h90 : s.codes.contains .G90 = true
+  · simp only [h90, if_true, Bool.true_or]; exact ⟨rfl, hp⟩
+  · by_cases h91 : s.codes.contains .G91 = true
+    · simp only [h90, h91, if_true, Bool.false_eq_true, if_false, Bool.or_true]; exact ⟨rfl, hp⟩
+    · simp only [h90, h91, Bool.false_eq_true, if_false, Bool.or_self]
+      by_cases hm : isMotion s = true
+      · simp only [hm, if_true]
+        refine ⟨hrel, ?_⟩
+        intro a
+        have hpa := hp a
+        simp only [Pt.get_mk', roundStmt]
+        cases hw : s.ax.get a <;> cases hx : m.pos.get a <;> cases hy : m'.pos.get a <;>
+          cases hmr : m.rel <;> simp_all <;> (try (have := hr ‹Rat›; grind))
+      · simp only [hm, Bool.false_eq_true, if_false]
+        by_cases h92 : s.codes.contains .G92 = true
+        · simp only [h92, if_true]
+          refine ⟨hrel, ?_⟩
+          intro a
+          have hpa := hp a
+          simp only [Pt.get_mk', roundStmt]
+          cases hw : s.ax.get a <;> cases hx : m.pos.get a <;> cases hy : m'.pos.get a <;>
+            simp_all <;> (try (have := hr ‹Rat›; grind))
+        · simp only [h92, Bool.false_eq_true, if_false]
+          by_cases h28 : s.codes.contains .G28 = true
+          · simp only [h28, if_true, roundStmt_isUnknown]
+            refine ⟨hrel, ?_⟩
+            intro a
+            have hpa := hp a
+            by_cases hu : s.ax.isUnknown = true
+            · simp [hu]
+            · simp only [hu, Bool.false_eq_true, if_false, Pt.get_mask, roundStmt, Pt.get_mk']
+              cases hw : s.ax.get a <;> simp_all
+          · simp only [h28, Bool.false_eq_true, if_false]
+            by_cases hpb : isProbe s = true
+            · simp only [hpb, if_true]
+              refine ⟨hrel, ?_⟩
+              intro a
+              have hpa := hp a
+              simp only [Pt.get_mask, roundStmt, Pt.get_mk']
+              cases hw : s.ax.get a <;> simp_all
+            · simp only [hpb, Bool.false_eq_true, if_false]; exact ⟨hrel, hp⟩
+
+/-- error budget along a whole program -/
+def budgetRun (ε : Rat) : Machine → (Axis → Rat) → List Stmt → (Axis → Rat)
+  | _, δ, [] => δ
+  | m, δ, s :: ss => budgetRun ε (m.exec s) (budget m s ε δ) ss
+
+theorem rounding_run (r : Rat → Rat) (ε : Rat) (hr : ∀ x, -ε ≤ r x - x ∧ r x - x ≤ ε) (ss : List Stmt) :
+    ∀ (δ : Axis → Rat) (m m' : Machine), Near δ m m' →
+      Near (budgetRun ε m δ ss) (Machine.run m ss) (Machine.run m' (ss.map (roundStmt r))) := by
+  induction ss with
+  | nil => intro δ m m' h; exact h
+  | cons s ss ih =>
+    intro δ m m' h
+    simp only [budgetRun, Machine.run, List.map_cons, List.foldl]
+    exact ih _ _ _ (rounding_step r ε hr δ m m' h s)
+
 end GscribModel.Builder
